@@ -39,6 +39,12 @@ mod types {
     #[derive(Iden)] pub enum snake_already { Table, lower_variant }
     // a PLAIN variant name whose rename holds both quote characters: the fast path must be decided on the name that is written
     #[derive(Iden)] pub enum QuoteInRename { Table, #[iden = "a\"b`c"] Odd, #[iden(rename = "\"")] Odd2 }
+    // the fast path is decided over ALL variants: a quote in an EARLIER rename, a plain LAST variant
+    #[derive(Iden)] pub enum QuoteThenPlain { Table, #[iden = "a\"b`c"] Odd, Plain }
+    #[derive(IdenStatic, Clone, Copy)] pub enum QuoteThenPlainStatic { Table, #[iden = "a\"b`c"] Odd, Plain }
+    // .. and over the name `Table` really spells: a container rename holding the quote characters, `Table` without an attribute of its own
+    #[derive(Iden)] #[iden = "led`ger\"x"] pub enum QuoteInContainer { Table, Plain }
+    #[derive(IdenStatic, Clone, Copy)] #[iden(rename = "led`ger\"x")] pub enum QuoteInContainerStatic { Table, Plain }
     #[derive(Iden)] pub struct UnitStruct;
     #[derive(Iden)] pub struct HTTPUnitV2;
     #[derive(Iden)] #[iden = "renamed unit"] pub struct RenamedUnit;
@@ -98,6 +104,8 @@ pub fn search(_obl: &str) -> Vec<Witness> {
     same("Character::FontId", &Character::FontId); same("Character::Renamed", &Character::Renamed); same("Character::ByMethod", &Character::ByMethod); same("Character::Flat", &Character::Flat(Inner::Leaf));
     same("Inner::DeepLeafNode", &Inner::DeepLeafNode); same("RenamedUnit", &RenamedUnit); same("UnitStruct", &UnitStruct); same("Glyph::Image", &Glyph::Image); same("StaticRenamed", &StaticRenamed);
     same("QuoteInRename::Odd", &QuoteInRename::Odd); same("QuoteInRename::Odd2", &QuoteInRename::Odd2); same("QuoteInRename::Table", &QuoteInRename::Table);
+    same("QuoteThenPlain::Odd", &QuoteThenPlain::Odd); same("QuoteThenPlain::Plain", &QuoteThenPlain::Plain); same("QuoteThenPlainStatic::Odd", &QuoteThenPlainStatic::Odd);
+    same("QuoteInContainer::Table", &QuoteInContainer::Table); same("QuoteInContainer::Plain", &QuoteInContainer::Plain); same("QuoteInContainerStatic::Table", &QuoteInContainerStatic::Table);
     same("FontFaceIden::FamilyName", &FontFaceIden::FamilyName); same("XMLHttpRequest::Table", &XMLHttpRequest::Table);
     eprintln!("C19: {n} derived identifiers / quoted texts compared");
     out
